@@ -53,6 +53,18 @@ Definition client_protocol_at (c : cfg) (_ : st) (r : ribT) (l : label) : Prop :
 Definition client_protocol (c : cfg) (ls : list label) : Prop :=
   each_step (client_protocol_at c) c init rib_empty ls.
 
+(* sha256 is modelled as the identity on the hashed tuple (p_tag, p_pid); the tuple covers every
+   attribute the encoder writes, so a path that joins a queued entry has that entry's attributes
+   (and therefore its sizes). *)
+Definition hash_faithful_at (c : cfg) (s : st) (_ : ribT) (l : label) : Prop :=
+  match l with
+  | Add x p => forall e, In e (queue s) -> pkey (e_path e) = pkey p -> e_path e = p
+  | _ => True
+  end.
+
+Definition hash_faithful (c : cfg) (ls : list label) : Prop :=
+  each_step (hash_faithful_at c) c init rib_empty ls.
+
 (* One NLRI fits into an UPDATE next to the attributes of the path (otherwise BGP cannot carry the
    route in 4096 bytes at all). *)
 Definition fits (c : cfg) (p : path) (x : pfx) : Prop := nlri_len c x <= budget c p.
@@ -89,6 +101,10 @@ Definition no_withdraw_in_flight (c : cfg) (ls : list label) : Prop :=
 (* the messages written for one queue entry (oldest first) *)
 Definition batch_wire (c : cfg) (p : path) (xs : list pfx) : list msg :=
   rev (emit_all c p (pack c p xs) []).
+
+(* the UPDATE announcing the prefixes l with the attributes of p *)
+Definition ann_of (c : cfg) (p : path) (l : list pfx) : msg :=
+  MAnn (p_tag p) (wpid c p) (msg_total c p l) (wire_order c l).
 
 Definition ann_pfxs (m : msg) : list pfx :=
   match m with MAnn _ _ _ xs => xs | _ => [] end.
